@@ -5,6 +5,6 @@ CONSTANTS
   Devs = 2
   Emit = TRUE
 SPECIFICATION Spec
-INVARIANTS Thm_Idem Thm_Wrap Thm_Default Thm_Numeric Thm_Shape
+INVARIANTS Thm_Idem Thm_Wrap Thm_Default Thm_Numeric Thm_Shape Thm_Dfl
 ACTION_CONSTRAINT EmitEdge
 CHECK_DEADLOCK FALSE
